@@ -11,7 +11,7 @@ import common as C
 HASH_RE = re.compile(r"^RUN seed=(\d+) hash=([0-9a-f]+) .*?cfg=(\S+)", re.M)
 DIG_RE = re.compile(r'"digest":"([0-9a-f]+)"')
 
-DRIVERS = [("c03.cc", []), ("c40.cc", ["--mode", "table"]), ("c38.cc", []), ("c19.cc", ["--mode", "conc"]), ("c33.cc", []), ("c02.cc", []), ("c21t.cc", [])]
+DRIVERS = [("c03.cc", []), ("c40.cc", ["--mode", "table"]), ("c38.cc", []), ("c19.cc", ["--mode", "conc"]), ("c33.cc", ["--tolerate", "model-differs-after-fusestatic:*"]), ("c02.cc", []), ("c21t.cc", [])]
 
 
 def digest(binary, seed0, n, args, cpu=None, env=None):
